@@ -556,15 +556,38 @@ fn main() {
     });
     let bundled = Converter::bundled();
     let empty = Converter::empty();
+    // "renamed-units converter": the bundled file whose minute is called minuto/minutos/mnt, so that
+    // none of min/minute/minutes is known and `m` is only the metre
+    let renamed: Option<Converter> = (|| {
+        use cooklang::convert::units_file::{BestUnits, Units};
+        let mut file = UnitsFile::bundled();
+        for group in &mut file.quantity {
+            if group.quantity != PhysicalQuantity::Time {
+                continue;
+            }
+            group.best = Some(BestUnits::Unified(["s", "h", "mnt", "d"].map(String::from).to_vec()));
+            if let Some(Units::Unified(units)) = &mut group.units {
+                for unit in units.iter_mut() {
+                    if unit.symbols.iter().any(|s| &**s == "min") {
+                        unit.names = vec!["minuto".into(), "minutos".into()];
+                        unit.symbols = vec!["mnt".into()];
+                        unit.aliases = vec![];
+                    }
+                }
+            }
+        }
+        ConverterBuilder::new().with_units_file(file).and_then(|b| b.finish()).ok()
+    })();
     let pick = |id: &str| -> Option<Converter> {
         match id {
             "b" => Some(bundled.clone()),
             "e" => Some(empty.clone()),
             "s" => spanish.clone(),
+            "r" => renamed.clone(),
             _ => None,
         }
     };
-    let parsers: Vec<(String, Option<CooklangParser>)> = ["b", "e", "s"]
+    let parsers: Vec<(String, Option<CooklangParser>)> = ["b", "e", "s", "r"]
         .iter()
         .map(|id| (id.to_string(), pick(id).map(|c| CooklangParser::new(Extensions::all(), c))))
         .collect();
